@@ -63,11 +63,10 @@ func c08Rep(b byte, n int) []byte { return bytes.Repeat([]byte{b}, n) }
 // (00, 01, 02), letters give the classic "ab"+"c" = "a"+"bc" coincidence, 127/128 and 16383/16384 are where the
 // uvarint prefix changes width, 255/256 is where a one-byte length would wrap.
 func c08PreimageAlphabet() [][]byte {
-	sym := []byte{0, 1, 2}
-	maxLen := 2
+	sym := []byte{0, 1, 2, 'a'}
+	maxLen := 3
 	if vrep.Thorough() {
-		sym = []byte{0, 1, 2, 'a'}
-		maxLen = 3
+		sym = []byte{0, 1, 2, 'a', 0x80}
 	}
 	vals := [][]byte{{}}
 	level := [][]byte{{}}
@@ -250,15 +249,14 @@ func c08EnvPreimage(t *testing.T) {
 	a := c08New(t, "envelope-preimage")
 	defer a.flush()
 	vals := c08PreimageAlphabet()
-	a.r.Bounds["field_alphabet"] = fmt.Sprintf("%d values: all strings over small bytes that double as length prefixes up to a length bound, a/b/c/ab/bc/abc, 7f/80/8001, runs of length 127/128 and 255/256 (thorough: 129, 257, 16383, 16384)", len(vals))
+	a.r.Bounds["field_alphabet"] = fmt.Sprintf("%d values: all strings of length <= 3 over {00,01,02,'a'} (thorough: plus 80) - small bytes double as length prefixes -, a/b/c/ab/bc/abc, 7f/80/8001, runs of length 127/128 and 255/256 (thorough: 129, 257, 16383, 16384)", len(vals))
 	a.r.Bounds["triples"] = len(vals) * len(vals) * len(vals)
-	if a.shard != 0 {
-		return // collisions are found against a single table: the search is not sharded
-	}
+	// sharding: every worker computes every pre-image (cheap) but tables / counts only those whose hash falls
+	// into its bucket, so equal pre-images always meet in the same worker.
 	k := c08GenKey(t, crypto.Ed25519, 0)
 	type ent struct{ d, t, p int32 }
 	first := map[[16]byte]ent{}
-	confirmed := 0
+	confirmed, confirmedOther := 0, 0
 	idx := 0
 	for di, d := range vals {
 		for ti, ty := range vals {
@@ -271,9 +269,12 @@ func c08EnvPreimage(t *testing.T) {
 				if err != nil {
 					t.Fatalf("c08: makeUnsigned: %v", err)
 				}
+				h := sha256.Sum256(pre)
+				if int(h[31])%a.nsh != a.shard {
+					continue
+				}
 				x := c08Triple{string(d), ty, p}
 				a.exec("makeUnsigned", pre, true)
-				h := sha256.Sum256(pre)
 				var hk [16]byte
 				copy(hk[:], h[:16])
 				prev, dup := first[hk]
@@ -283,14 +284,22 @@ func c08EnvPreimage(t *testing.T) {
 				}
 				y := c08Triple{string(vals[prev.d]), vals[prev.t], vals[prev.p]}
 				a.r.Outcome("preimage:collision")
-				if confirmed >= 200 {
-					continue
-				}
-				confirmed++
-				// confirm through the real code that a receiver accepts one for the other
+				// confirm through the real code that a receiver accepts one for the other (at most 200
+				// confirmations for pairs record.Seal can produce and 200 for pairs it cannot)
 				s, c := y, x
 				if !s.sealable() && c.sealable() {
 					s, c = c, s
+				}
+				if s.sealable() {
+					if confirmed >= 200 {
+						continue
+					}
+					confirmed++
+				} else {
+					if confirmedOther >= 200 {
+						continue
+					}
+					confirmedOther++
 				}
 				sig, _ := c08Seal(t, k, s)
 				wire := c08Wire(t, k.Pub, c.T, c.P, sig)
@@ -299,8 +308,14 @@ func c08EnvPreimage(t *testing.T) {
 					a.exec(g.consumer, append([]byte(c.D+"\x00"), wire...), true)
 					if g.accepted {
 						a.r.Outcome("preimage:collision-accepted")
-						a.r.Violate("envelope-accepted-under-different-triple",
-							fmt.Sprintf("%s: envelope sealed (ed25519) as %v is accepted as %v: both have the signed pre-image %s", g.consumer, s, c, c08Hex(pre)),
+						key, how := "envelope-accepted-under-different-triple", "sealed by record.Seal"
+						if !s.sealable() {
+							// record.Seal refuses an empty domain / type; such an envelope can only come from another
+							// implementation (the harness signs the real pre-image directly). Separate key.
+							key, how = "envelope-accepted-under-different-triple(not-sealable-by-go)", "signed over the real pre-image, record.Seal refuses it"
+						}
+						a.r.Violate(key,
+							fmt.Sprintf("%s: envelope (ed25519, %s) for %v is accepted as %v: both have the signed pre-image %s", g.consumer, how, s, c, c08Trunc(c08Hex(pre), 96)),
 							map[string]any{"section": "envelope-preimage", "consumer": g.consumer, "sealed": s.String(), "consumed": c.String(), "wire": c08Hex(wire), "ask_domain": c08Hex([]byte(c.D))})
 					} else {
 						a.r.Outcome("preimage:collision-rejected-anyway")
@@ -309,7 +324,8 @@ func c08EnvPreimage(t *testing.T) {
 			}
 		}
 	}
-	a.r.Outcome(fmt.Sprintf("preimage:distinct-preimages=%d-of-%d-triples", len(first), idx))
+	a.r.Outcome("preimage:distinct")
+	a.r.Note("shard %d/%d: %d distinct pre-images among the %d triples of its hash bucket (%d triples enumerated)", a.shard, a.nsh, len(first), a.r.Executions, idx)
 	a.r.Sample(map[string]any{"triple": c08Triple{"ab", []byte("c"), nil}.String(), "vs": c08Triple{"a", []byte("bc"), nil}.String(), "note": "same concatenation, must have different pre-images"})
 }
 
@@ -361,14 +377,15 @@ func c08EnvCross(t *testing.T) {
 					if !bytes.Equal(s.P, c.P) {
 						rel += "P"
 					}
-					if rel == "" {
-						rel = "same"
-					}
 					res := "rejected"
 					if g.accepted {
 						res = "accepted"
 					}
-					a.r.Outcome("differs-in-" + rel + ":" + res)
+					if rel == "" {
+						a.r.Outcome("identical-triple:" + res)
+					} else {
+						a.r.Outcome("differs-in-" + rel + ":" + res)
+					}
 					rp := map[string]any{"section": "envelope-triples", "consumer": g.consumer, "key": k.Name, "sealed": s.String(), "consumed": c.String(), "wire": c08Hex(wire), "ask_domain": c08Hex([]byte(c.D))}
 					switch {
 					case g.accepted && !same:
